@@ -10,6 +10,8 @@ Definition q (n : Z) (d : positive) : F := qmk n d.
 Definition num_state (mode : nat) (cu2 floor2 k2max eps2 : F) (o : state_obs F) : N :=
   N.of_nat (check_state mode cu2 floor2 k2max eps2 o).
 
+Definition num_own_resid (cu2 floor2 : F) (o : state_obs F) : N := N.of_nat (check_own_resid cu2 floor2 o).
+
 Definition num_rankdef (mode : nat) (cu2 floor2 k2max eps2 : F) (n m : nat) (w : option (seq F)) (Phi Y : smx F)
            (sel : seq nat) (C : smx F) (R : seq F) : N :=
   N.of_nat (check_rankdef mode cu2 floor2 k2max eps2 n m w Phi Y sel C R).
